@@ -49,8 +49,30 @@ def outputs_equal(base, other, unstable=()):
             if v == ov or (cid, pos) in unstable: continue
             if k.endswith("PKG"):
                 continue        # package dumps record arrival order; the exchanged buffers below decide
+            if toks_close(v, ov): continue     # "up to floating-point reassociation in sums whose order follows arrival order"
             diffs.append((cid, k, "%s vs %s" % (" ".join(v)[:200], " ".join(ov)[:200])))
     return diffs
+
+
+def is_float_tok(x):
+    return ("0x" in x and "p" in x) or x in ("inf", "-inf", "nan", "-nan") or (("." in x or "e" in x) and x.lstrip("-")[:1].isdigit())
+
+def toks_close(v, ov, rel=1e-7):
+    """the same token sequence; tokens printed as floating-point values may differ by rounding (reassociated sums), every
+    other token (indices, counts, states, integers) must be identical"""
+    if len(v) != len(ov): return False
+    fa, fb = [], []
+    for a, b in zip(v, ov):
+        if a == b: continue
+        if not (is_float_tok(a) and is_float_tok(b)): return False
+        try: x = float.fromhex(a) if "0x" in a else float(a); y = float.fromhex(b) if "0x" in b else float(b)
+        except ValueError: return False
+        fa.append(x); fb.append(y)
+    scale = max([abs(x) for x in fa + fb if x == x and abs(x) != float("inf")] + [0.0])
+    for x, y in zip(fa, fb):
+        if x != x or y != y or abs(x) == float("inf") or abs(y) == float("inf"): return False     # (equal tokens were skipped above)
+        if abs(x - y) > rel * max(abs(x), abs(y)) + 1e-12 * scale: return False
+    return True
 
 
 def unstable_lines(a, b):
